@@ -607,6 +607,7 @@ def _enc_classes(g, rng, thorough):
     sz = 48 if K is F1 else 96
     out = []
     pts = [("identity", None), ("generator", g.gen)] + [("subgroup", g.sub_pt(rng)) for _ in range(3 if not thorough else 10)]
+    pts += header_byte_points(g)
     low = [("order-%d" % l, g.low(l, rng)) for l in g.small] + [("full-curve", g.full(rng)) for _ in range(2)]
     low.append(("low+subgroup", C.add(g.low(g.small[0], rng), g.sub_pt(rng))))
     for comp in (True, False):
@@ -770,6 +771,37 @@ def check_C05(ck):
             ck.expect(impl == bs.hex(), "canonical", "%s decodes to %s" % (bs.hex()[:40] + "...", pt[:40]), impl[:80], bs.hex()[:80], "decode(bs)=P => encode(P)=bs (only accepted preimage)")
 
 
+def header_byte_points(g, n=400):
+    """subgroup points k*G whose encodings have boundary HEADER bytes: leading coordinate < 2^376 (top byte 0, so the
+    first byte consists of the flag bits only: 0x80 / 0xa0 compressed, 0x00 uncompressed), for both values of the sort
+    flag; and leading coordinate with the maximal top byte 0x1a / 0x19.  Found by walking through multiples of the generator."""
+    key = "hdr"
+    if key in g._cache:
+        return g._cache[key]
+    K, C = g.K, g.C
+    want = {}
+    P = None
+    for k in range(1, n + 1):
+        P = C.add(P, g.gen)
+        if P is None:
+            continue
+        lead = P[0] if K is F1 else P[0][1]
+        top = lead >> 376
+        yneg = K.neg(P[1])
+        big = K.lt(yneg, P[1])
+        cls = None
+        if top == 0:
+            cls = "header-flags-only/sort=%d" % (1 if big else 0)
+        elif top >= 0x19:
+            cls = "header-max-top-byte/sort=%d" % (1 if big else 0)
+        if cls and cls not in want:
+            want[cls] = P
+        if len(want) == 4:
+            break
+    g._cache[key] = sorted(want.items())
+    return g._cache[key]
+
+
 def check_C19(ck):
     rng = ck.rng
     thorough = ck.tier == "thorough"
@@ -805,7 +837,7 @@ def check_C19(ck):
         g = grp(tag)
         K, C = g.K, g.C
         sz = 48 if K is F1 else 96
-        pts = [None, g.gen, g.sub_pt(rng), g.sub_pt(rng)]
+        pts = [None, g.gen, g.sub_pt(rng), g.sub_pt(rng)] + [P for (_, P) in header_byte_points(g)]
         for P in pts:
             for comp in (True, False):
                 bs = O.encode(K, P, comp)
@@ -1361,6 +1393,12 @@ def check_C10(ck):
             ps = [rng.choice([p for p in pool]) for _ in range(n)]
             ks = [rng.choice(scalar_classes(rng, 2, allow_big=True))[1] for _ in range(n)]
             add_case("soppre/n%d" % n, "soppre", ps, ks, g.A(msm(ps, ks)))
+        # identity points among the inputs of the table-driven variant (their tables are built into a caller-provided buffer
+        # that holds stale entries)
+        nz = [p for p in pool if p is not None]
+        for ps in ([None], [nz[0], None, nz[1]], [None, nz[0]], [nz[1], nz[0], None], [None, None]):
+            ks = [rng.randrange(1, 2 ** 255) for _ in ps]
+            add_case("soppre/with-identity", "soppre", ps, ks, g.A(msm(ps, ks)))
         res = ck.run(cases)
         for c, (impl, _), want in zip(cases, res, exp):
             ck.expect(impl == want, "msm:" + c[0].split("/")[0], c[1], impl, want, "sum [k_i]P_i over the first min entries")
